@@ -508,13 +508,15 @@ func (e *Engine) convert(x Value, from, to types.Type) Value {
 	case fsi.kind == 2 && tsi.kind == 4:
 		// string(rune)
 		if x.T != nil {
-			// ASCII only
 			t32 := e.extend(x.T, fsi, 32)
-			isASCII := e.tt.Ult(t32, e.tt.Const(0x80, 32))
-			if !e.branch(isASCII) {
-				e.unsupported("string(rune) of symbolic non-ASCII rune")
+			if fsi.w > 32 {
+				// values outside the rune range encode as U+FFFD
+				inr := e.tt.Ule(e.extend(x.T, fsi, 64), e.tt.Const(0x10FFFF, 64))
+				if fsi.w == 64 && !e.branch(inr) {
+					return strV("\uFFFD")
+				}
 			}
-			return Value{O: &Str{b: []Value{{T: e.tt.Extract(t32, 7, 0)}}}}
+			return Value{O: normStr(e.encodeRuneSym(Value{T: t32}))}
 		}
 		r := rune(sext64(x.N, fsi.w))
 		if !fsi.signed {
